@@ -507,10 +507,10 @@ def rule_fixed_rect(chk, prog):
 
 def run(chk):
     prog = chk.load()
-    rule_pairs(chk, prog)
-    rule_exempt(chk, prog)
-    rule_form(chk, prog)
-    rule_sites(chk, prog)
-    rule_wiring(chk, prog)
-    rule_cluster_geometry(chk, prog)
-    rule_fixed_rect(chk, prog)
+    chk.guard(rule_pairs, chk, prog)
+    chk.guard(rule_exempt, chk, prog)
+    chk.guard(rule_form, chk, prog)
+    chk.guard(rule_sites, chk, prog)
+    chk.guard(rule_wiring, chk, prog)
+    chk.guard(rule_cluster_geometry, chk, prog)
+    chk.guard(rule_fixed_rect, chk, prog)
